@@ -174,7 +174,9 @@ def run_conditions(prefix, conds, nproc=None, twin_timeout=25):
                           {'module': c.module, 'func': c.func, 'call': call}, msg[:600])
             else:
                 rec['detail'] = msg[:200]
-            part.samples.append(rec)
+            part.records.append(rec)
+            if len(part.samples) < 6:
+                part.samples.append(rec)
     finally:
         shutil.rmtree(tmp, ignore_errors=True)
     return part
